@@ -168,6 +168,9 @@ end proj
 def HistOk (h : List Op) : Prop :=
   ∀ op ∈ h, op.isValue = true ∧ op ≠ .set uninit ∧ op ≠ .setq uninit
 
+instance (h : List Op) : Decidable (HistOk h) := by
+  unfold HistOk; infer_instance
+
 /-- `Uninitialized` is neither the declared default nor produced by a validator. -/
 structure Clean (E : Env) (d : Id) : Prop where
   dflt : d ≠ uninit
